@@ -69,18 +69,18 @@ func accepts(want []string, got string) bool {
 
 // S is one sequential differential run: a real database next to the model.
 type S struct {
-	c       *core.Ctx
-	r       *gen.Rng // the stream driving this run (c.R unless the run is replicated)
-	h       *Handle
-	m       *model.DB
-	schemas map[string]*gen.Schema
-	ever    map[string]map[string]bool // ids ever used, per collection
-	genIDs  map[string]bool            // every id clover generated in this run
-	ops     int
-	failed  bool // a violation was recorded: stop the case
-	plan    string // plan kind of the last read (coverage only)
-	lastSt  *mon.OpStats
-	opCells bool // record <operation|outcome|backend> coverage cells
+	c          *core.Ctx
+	r          *gen.Rng // the stream driving this run (c.R unless the run is replicated)
+	h          *Handle
+	m          *model.DB
+	schemas    map[string]*gen.Schema
+	ever       map[string]map[string]bool // ids ever used, per collection
+	genIDs     map[string]bool            // every id clover generated in this run
+	ops        int
+	failed     bool   // a violation was recorded: stop the case
+	plan       string // plan kind of the last read (coverage only)
+	lastSt     *mon.OpStats
+	opCells    bool // record <operation|outcome|backend> coverage cells
 	recording  bool
 	transcript []string
 }
@@ -588,14 +588,14 @@ func (s *S) Insert(coll string, docs []map[string]any, one bool) []string {
 
 // Upd describes an updater in a way both the model and the real callback can apply.
 type Upd struct {
-	Name     string
-	InPlace  bool           // modify the argument and return it, instead of a copy
-	Set      map[string]any // dotted path -> value (canonical)
-	NewID    string         // != "": set _id to this value
-	Delete   bool           // UpdateFunc only: return nil
-	BadExp   bool           // set _expiresAt to a non-time
-	SpellingOfOwnID bool    // set _id to the other letter case of the document's own id
-	Raw      map[string]any // optional: for a path of Set, the same value as non-canonical Go types (handed to clover instead)
+	Name            string
+	InPlace         bool           // modify the argument and return it, instead of a copy
+	Set             map[string]any // dotted path -> value (canonical)
+	NewID           string         // != "": set _id to this value
+	Delete          bool           // UpdateFunc only: return nil
+	BadExp          bool           // set _expiresAt to a non-time
+	SpellingOfOwnID bool           // set _id to the other letter case of the document's own id
+	Raw             map[string]any // optional: for a path of Set, the same value as non-canonical Go types (handed to clover instead)
 }
 
 func (u *Upd) real(k string) any {
